@@ -212,6 +212,10 @@ def run(case):
                 out.fail(("read-differs", k, cfg["format"], "manual" if not auto else "auto", "dirty" if dirty else "clean"),
                          f"{ctx(i)}\n got      {res}\n expected {expect}")
                 return out
+            leaks = [e for e in endpoint.errors() if e[0] == "private-default-graph-name-sent"]
+            if leaks:
+                out.fail(("private-default-graph-name-sent", k), f"{ctx(i)}\n request: {leaks[0][1][-300:]} {leaks[0][2]}")
+                return out
             got, want = endpoint_quads(), model.quads()
             if got != want:
                 out.fail(("endpoint-differs", k, "manual" if not auto else "auto", "pending" if model.pending else "no-pending"),
@@ -281,7 +285,10 @@ def cases(draw, tier):
     xml = cfg["format"] == "xml"
     subj = draw(st.lists(gt.iris(), min_size=2, max_size=3, unique_by=repr))
     pred = draw(st.lists(gt.iris(rich=False), min_size=1, max_size=2, unique_by=repr))
-    lit = st.one_of(gt.literals(xml_safe=xml, unknown=True), gt.falsy_literals(), gt.plain_literals(xml_safe=xml))
+    # strings that look like SPARQL structure (the store re-writes update texts with a block finder)
+    tricky = st.lists(st.sampled_from(['"', "\\", "}", "{", "\n", "'", "#", "a", " ", "WHERE {", '"""', "<", ">"]), min_size=1, max_size=6).map(
+        lambda xs: ["l", "".join(xs), None, None])
+    lit = st.one_of(gt.literals(xml_safe=xml, unknown=True), gt.falsy_literals(), gt.plain_literals(xml_safe=xml), tricky)
     obj = draw(st.lists(st.one_of(lit, lit, gt.iris()), min_size=2, max_size=5, unique_by=repr))
     triple = st.tuples(st.sampled_from(subj), st.sampled_from(pred), st.sampled_from(obj + subj[:1])).map(list)
 
